@@ -607,19 +607,28 @@ impl<K: El, V: El> Mon<K, V> {
                 // the cursor would walk past the elements that exist: going on is not safe.
                 // Iteration clones this cursor, so the call also left the observable contents
                 // wrong: the op's own property is violated as well.
+                // (and every iterator created now announces a wrong length: C08's exact-length
+                // clause, observed without touching an element)
+                let hint = self.map.iter().size_hint();
                 return Err(Viol {
-                    extra: Vec::new(),
+                    extra: if hint.0 != len { vec!["C08"] } else { Vec::new() },
                     prop: "C05",
                     more: cursor_more(op.code),
                     msg: format!(
-                        "cached iterator believes {} elements remain but the old table holds {} after {} (iteration would yield elements that are gone)",
+                        "cached iterator believes {} elements remain but the old table holds {} after {} (iteration would yield elements that are gone; iter().size_hint() = {:?}, len() = {})",
                         o.cursor_remaining,
                         o.table.len,
-                        enc()
+                        enc(),
+                        hint,
+                        len
                     ),
                 });
             }
             if o.cursor_remaining < o.table.len {
+                let hint = self.map.iter().size_hint();
+                if hint.0 != len {
+                    soft!(self, "C08", "iter().size_hint() = {:?} but len() = {} after {} (the cached iterator lost track of {} elements of the old table)", hint, len, enc(), o.table.len - o.cursor_remaining);
+                }
                 // elements will be stranded, but continuing the history is memory-safe
                 soft!(
                     self,
